@@ -99,7 +99,7 @@ func run(r *enumx.Run, replay *enumx.ReplayCase) {
 		}
 		return
 	}
-	r.Rule("format clause 'nonce = 7-byte prefix || BE32(counter) || last flag' beyond the counters a document of affordable size reaches: kit's nonceForSegment and its EncryptSegment/DecryptSegment (reached through an in-package accessor added by the build overlay) against the reference implementation, for every counter in {0,1,2,255,256,257,65535,65536,65537,2^24-1,2^24,2^24+1,2^31,2^32-2,2^32-1} + every power of two + 0xA5 in each byte position, x last in {false,true} x 4 nonce prefixes x {nonce bytes, AES-GCM segment, CHACHA20-POLY1305 segment}. Every evaluation is a distinct point.")
+	r.Rule("format clause 'nonce = 7-byte prefix || BE32(counter) || last flag' beyond the counters a document of affordable size reaches: kit's nonceForSegment and its EncryptSegment/DecryptSegment (reached through an in-package accessor added by the build overlay) against the reference implementation, for every counter in {0,1,2,255,256,257,65535,65536,65537,2^24-1,2^24,2^24+1,2^31,2^32-2,2^32-1} + every power of two + 0xA5 in each byte position, x last in {false,true} x 4 nonce prefixes x {nonce bytes, AES-GCM segment, CHACHA20-POLY1305 segment}. Then the nonce bytes alone for EVERY counter of a contiguous range (quick: 0..2^26-1; thorough: the whole 32-bit space) x both finalities under one prefix. Every evaluation is a distinct point.")
 	var cases []*Case
 	for p := range prefixes {
 		for _, ctr := range counters {
@@ -124,4 +124,43 @@ func run(r *enumx.Run, replay *enumx.ReplayCase) {
 	}
 	r.Sample(cases[len(cases)/2])
 	r.Sample(&Case{Prefix: 3, Counter: 65536, Last: false, Cipher: 1})
+	sweep(r)
+}
+
+// sweep compares kit's nonce with the README's for EVERY counter of a range:
+// the whole 32-bit counter space in the thorough tier, its first 2^26 values
+// in the quick tier, both finalities, under one prefix. Chunks of 2^16.
+func sweep(r *enumx.Run) {
+	const chunk = 1 << 16
+	total := uint64(1) << 26
+	if r.Thorough() {
+		total = 1 << 32
+	}
+	np := prefixes[2]
+	n := int(total / chunk)
+	done := r.Parallel(n, func(i int) {
+		var want [12]byte
+		copy(want[:7], np)
+		lo := uint64(i) * chunk
+		for c := lo; c < lo+chunk; c++ {
+			ctr := uint32(c)
+			want[7], want[8], want[9], want[10] = byte(ctr>>24), byte(ctr>>16), byte(ctr>>8), byte(ctr)
+			for l := 0; l < 2; l++ {
+				want[11] = byte(l)
+				got := v1.VerifNonce(np, ctr, l == 1)
+				if !bytes.Equal(got, want[:]) {
+					cs := &Case{Prefix: 2, Counter: ctr, Last: l == 1}
+					r.Violation("format:segment-nonce", fmt.Sprintf("nonce of segment %d (last=%v) under prefix %x is %x, the README prescribes prefix || BE32(counter) || last flag = %x", ctr, l == 1, np, got, want[:]), cs)
+					r.Count(int64(c-lo)*2, int64(c-lo)*2)
+					return // one report per chunk
+				}
+			}
+		}
+		r.Count(2*chunk, 2*chunk)
+	})
+	if done == n {
+		r.Space(fmt.Sprintf("segment nonce sweep: every counter 0..%d x 2 finalities (%d points), nonce bytes only", total-1, 2*total))
+	} else {
+		r.Incomplete(fmt.Sprintf("segment nonce sweep: %d of %d chunks of 65536 counters", done, n))
+	}
 }
